@@ -9,6 +9,14 @@ NOTE = ('trusted: go/ssa lowering (x/tools v0.29.0), the symgo interpreter (vali
         'the reference model in the harness, z3 5.1.0; environment stubs and bounds are listed in the evidence file')
 
 CLAIMED = {
+    'C08': dict(text='per cartridge type x ROM size: one control write (any address, any value) from every register state under the proved simulation relation, then a read at any address below 0x8000 equals the byte of the documented bank (mod ROM size); ROM page contents are uninterpreted, ROM immutability via a universally quantified probe; inductive, so every write sequence is covered',
+                ref='DESIGN.md §3 C08'),
+    'C09': dict(text='per cartridge type x RAM size: one write (control or data) from every state with arbitrary RAM contents: gating by enable, bank selection modulo bank count, exactly the addressed cell changes, contents kept across enable/bank switches, RAM dump equals stored bytes, MBC2 nibble/window rules, ROM-only reads 0xFF; inductive one-step',
+                ref='DESIGN.md §3 C09'),
+    'C10': dict(text='one step (increment / machine-cycle tick / latch write / register read+write through the MBC3 window) from every clock state satisfying the proved invariant, against a reference clock; the 2^20-cycle second is covered by the tick lemma, not unrolled',
+                ref='DESIGN.md §3 C10'),
+    'C22': dict(text='one event (any button id/pressed flag or any JOYP write) from every controller state satisfying the proved invariant, then a JOYP read, against a table-driven reference; equals the closure over all histories',
+                ref='DESIGN.md §3 C22'),
     'C12': dict(text='k machine cycles (k=6 quick, 10 thorough) of the real timer from every counter phase/TAC/TIMA/TMA, one symbolic CPU access per cycle, '
                      'equal to a reference DMG timer at every cycle boundary, for all values at once (solver verdict, not sampling)',
                 ref='DESIGN.md §3 C12'),
